@@ -163,8 +163,9 @@ func configImmutable(c *Ctx, pkg string) {
 			}
 			fr := FieldRef{Type: t.typ, Pkg: relName, Field: f.Name()}
 			ok := true
-			for _, w := range ix.Writers(fr) {
-				if ix.Within(w, func(f *ssa.Function) bool { return isBuilderMethod(f) || isConstructorLike(f) }) {
+			for _, wa := range ix.WriteAccesses(fr) {
+				w := wa.Fn
+				if ctorOrBuilderWrite(ix, wa, nil) {
 					continue
 				}
 				ok = false
@@ -183,9 +184,10 @@ func configImmutable(c *Ctx, pkg string) {
 	for _, f := range c.P.structFields(pkg, policyType) {
 		fr := FieldRef{Type: policyType, Pkg: pkg, Field: f.Name()}
 		ok := true
-		for _, w := range ix.Writers(fr) {
-			if ix.Within(w, func(top *ssa.Function) bool {
-				return isConstructorLike(top) || isBuilderMethod(top) || (pkg == "circuitbreaker" && f.Name() == "state" && top.Name() == "transitionTo")
+		for _, wa := range ix.WriteAccesses(fr) {
+			w := wa.Fn
+			if ctorOrBuilderWrite(ix, wa, func(top *ssa.Function) bool {
+				return pkg == "circuitbreaker" && f.Name() == "state" && top.Name() == "transitionTo"
 			}) {
 				continue
 			}
